@@ -41,8 +41,9 @@ type part struct {
 	kind string // raw | body | data | member | cdata
 	text []byte
 	rev  int // pdf: revision index
-	idx  int // pdf: object index in revision; zip: member index
+	idx  int // pdf: object index in revision; zip: member index; xs: index into partList()
 	obj  int // pdf: object number
+	xs   bool // part of an xsBase: no drop/dup; data parts always get byte substitutions
 }
 
 type span struct {
@@ -349,6 +350,25 @@ func buildPDF(b *base, parts []part, eds []edit) (out []byte, ok bool) {
 			out, ok = nil, false
 		}
 	}()
+	if b.xs != nil {
+		over := map[int][]byte{}
+		seen := map[int]bool{}
+		for _, ed := range eds {
+			if seen[ed.part] {
+				continue
+			}
+			seen[ed.part] = true
+			var same []edit
+			for _, e2 := range eds {
+				if e2.part == ed.part && e2.op == "" {
+					same = append(same, e2)
+				}
+			}
+			over[parts[ed.part].idx] = applySpanEdits(parts[ed.part].text, same)
+		}
+		data, _, _ := b.xs.build(over)
+		return data, true
+	}
 	f := b.file
 	revs := make([]pdfw.Revision, len(f.Revs))
 	copy(revs, f.Revs)
@@ -430,6 +450,17 @@ func buildPDF(b *base, parts []part, eds []edit) (out []byte, ok bool) {
 // pdfParts lists the object-level parts of the plan.
 func pdfParts(b *base) []part {
 	var ps []part
+	if b.xs != nil {
+		_, texts, _ := b.xs.build(nil)
+		for i, xp := range b.xs.partList() {
+			kind := "body"
+			if xp.kind == xpData || xp.kind == xpXRefData {
+				kind = "data"
+			}
+			ps = append(ps, part{name: xp.name(b.xs), kind: kind, text: texts[i], idx: i, xs: true})
+		}
+		return ps
+	}
 	for r, rev := range b.file.Revs {
 		for i, o := range rev.Objs {
 			if o.Stream != nil {
